@@ -320,6 +320,9 @@ pub struct Case {
     /// operation sequence over the generated API to execute on the compiled module (C04; used by the probe generator only)
     #[serde(default, skip_serializing_if = "Option::is_none")]
     pub ops: Option<serde_json::Value>,
+    /// environment variables in force during this call only (None value = unset): the target description cargo gives a build script
+    #[serde(default, skip_serializing_if = "Option::is_none")]
+    pub env: Option<std::collections::BTreeMap<String, Option<String>>>,
     /// "small" / "large": program text below / above the OS pipe buffer (C19)
     #[serde(default, skip_serializing_if = "Option::is_none")]
     pub size_class: Option<String>,
